@@ -181,6 +181,23 @@ var openFlagSets = []int{ //nolint:gochecknoglobals // flag combinations.
 	os.O_RDONLY | os.O_CREATE, os.O_WRONLY | os.O_RDWR,
 }
 
+// genFlags draws open flags: a curated combination, or any access mode with any subset of the other flags.
+func genFlags(t *sim.Tape) int {
+	if t.Chance(500) {
+		return openFlagSets[t.Int(len(openFlagSets))]
+	}
+
+	f := []int{os.O_RDONLY, os.O_WRONLY, os.O_RDWR}[t.Int(3)]
+
+	for _, x := range []int{os.O_APPEND, os.O_CREATE, os.O_EXCL, os.O_TRUNC, os.O_SYNC} {
+		if t.Chance(300) {
+			f |= x
+		}
+	}
+
+	return f
+}
+
 // genConcOp draws one call. uniq makes written data attributable to its call.
 func genConcOp(t *sim.Tape, cfg *concCfg, adversarial bool, uniq string) fsx.Op {
 	weights := []int{5, 5, 6, 3, 4, 3, 2, 2, 2, 2, 2, 2, 1, 1, 1, 1, 1, 1, 1, 1}
@@ -214,7 +231,7 @@ func genConcOp(t *sim.Tape, cfg *concCfg, adversarial bool, uniq string) fsx.Op 
 		o.Q = pickPath(t, cfg, adversarial)
 	case "OpenFile":
 		o.P = pickPath(t, cfg, adversarial)
-		o.Flag = openFlagSets[t.Int(len(openFlagSets))]
+		o.Flag = genFlags(t)
 		o.Perm = 0o644
 		o.H = t.Int(2)
 	case "FWrite":
